@@ -361,6 +361,14 @@ pub fn pyverify(prop: &str, scen_path: &str, res_path: &str, tier: Tier, seed: u
             continue;
         };
         b.evaluations += 1;
+        if res["outcome"] == "crash" {
+            ctx.violate(&format!("python-extension-crashed:{prop}"), format!("scenario {id}: {}", res["message"]), json!({"kind":"python","scenario":s,"python_result":res}));
+            continue;
+        }
+        if res["outcome"] == "driver-error" {
+            ctx.inconclusive(format!("python driver error on scenario {id}: {}", crate::util::trunc(res["message"].as_str().unwrap_or(""), 300)));
+            continue;
+        }
         let sc = Scenario {
             problem: crate::world::Problem { spec: Spec::from_json(&s["spec"]), world: crate::world::World::from_json(&s["world"]), start: crate::util::parse_fs(&s["start"]), goal: crate::world::GoalSpec::from_json(&s["goal"]), infeasible: None, tags: vec![] },
             params: crate::world::PParams::from_json(&s["planner"]),
